@@ -74,7 +74,11 @@ def _normal_form(relpath, qualname):
 def lemma_same_program(ev):
     a = _normal_form(MH, "parse_stream")
     b = _normal_form(MH, "parse_async_stream")
-    return z3.BoolVal(a == b)
+    if a != b:
+        # textual identity is a sufficient condition only: spelled differently, the shortcut does not apply (undecided; the
+        # bounded layer runs both helpers on every case)
+        raise Unsupported("parse_stream / parse_async_stream are no longer the same text (syntactic shortcut not applicable)")
+    return z3.BoolVal(True)
 
 
 lemma_same_program.note = ("after await-erasure, async-for -> for, dropping annotations/docstrings and the declared renamings "
@@ -91,7 +95,9 @@ def _json_form_twins():
 
 
 def lemma_request_twins(ev):
-    return z3.BoolVal(_json_form_twins())
+    if not _json_form_twins():
+        raise Unsupported("Request.form / _parse_multipart of the two interfaces are no longer the same text (syntactic shortcut not applicable)")
+    return z3.BoolVal(True)
 
 
 lemma_request_twins.note = "Request.form / Request._parse_multipart of both interfaces are the same program after await-erasure"
